@@ -820,6 +820,24 @@ func dispatchShape(c *core.Ctx, d *dispatcher, name string) {
 		default:
 			if isUnsupported(r1) {
 				nUnsupported++
+				break
+			}
+			// a refusal other than "unsupported": only the header peek's own error (a frame shorter than a header) or the
+			// error of the PDU's IDecode may be handed back. A dispatcher that turns frames away on the header's content - a
+			// length range, a status, a sequence number - refuses PDUs its own package encodes.
+			allowed := false
+			switch x := r1.(type) {
+			case *ssa.Extract:
+				if call, isC := x.Tuple.(*ssa.Call); isC && call.Call.StaticCallee() != nil && call.Call.StaticCallee().Name() == "PeekHeader" {
+					allowed = true
+				}
+			case *ssa.Call:
+				if x.Call.IsInvoke() && x.Call.Method.Name() == "IDecode" {
+					allowed = true
+				}
+			}
+			if !allowed {
+				problems = append(problems, "a path refuses the frame with "+role(plain, r1)+", which is neither the header peek's error, the unsupported-command error nor the decoder's error: a PDU the package can encode is turned away on its header's content")
 			}
 		}
 	}
